@@ -334,8 +334,16 @@ func parseGroup(mp *msgParser, tags []Tag) {
 		mp.parsedFieldBytes = &mp.msg.fields[mp.fieldIndex]
 		mp.rawBytes, _ = extractField(mp.parsedFieldBytes, mp.rawBytes)
 
-		// Is this field a member for the group.
-		if isGroupMember(mp.parsedFieldBytes.tag, fields) {
+		// Is this field a member of the group, or, after a nested group, of one of the
+		// groups that enclose it.
+		memberTags, memberFields := tags, fields
+		for !isGroupMember(mp.parsedFieldBytes.tag, memberFields) && len(memberTags) > 1 {
+			memberTags = memberTags[:len(memberTags)-1]
+			memberFields = getGroupFields(mp.msg, memberTags, mp.appDataDictionary)
+		}
+		if isGroupMember(mp.parsedFieldBytes.tag, memberFields) {
+			// Continue parsing the group the field belongs to.
+			tags, fields = memberTags, memberFields
 			// The body extends over this field (a header or trailer field that ends the
 			// group must not move the end of the body).
 			mp.trailerBytes = mp.rawBytes
@@ -369,17 +377,7 @@ func parseGroup(mp *msgParser, tags []Tag) {
 				mp.msg.Body.add(dm)
 				// Cycle again with the new group.
 				dm = mp.msg.fields[mp.fieldIndex : mp.fieldIndex+1]
-				fields = getGroupFields(mp.msg, searchTags, mp.appDataDictionary)
-				continue
-			}
-			if len(tags) > 1 {
-				searchTags = tags[:len(tags)-1]
-			}
-			// Did this tag occur after a nested group and belongs to the parent group.
-			if isNumInGroupField(mp.msg, searchTags, mp.appDataDictionary) {
-				// Add the field member to the group.
-				dm = append(dm, *mp.parsedFieldBytes)
-				// Continue parsing the parent group.
+				tags = searchTags
 				fields = getGroupFields(mp.msg, searchTags, mp.appDataDictionary)
 				continue
 			}
